@@ -649,6 +649,33 @@ fn collect_tast(file: &tast::File) -> Vec<(u32, u32, &'static str, String)> {
             _ => {}
         }
     }
+    /// the initialiser `e` of a `let` and the sub-expressions reached from it through forms whose TAST
+    /// children are the CST children one to one (call / constructor arguments, tuple and array items,
+    /// operands); entry = "<path>\u{1}<type>", path = steps `<tag><index>` resolved by `expr_node_for`
+    fn sub_exprs(e: &tast::Expr, path: String, depth: usize, at: (u32, u32), out: &mut Vec<(u32, u32, &'static str, String)>) {
+        use tast::Expr::*;
+        let e: &tast::Expr = match e {
+            EToDyn { expr: inner, .. } => inner,
+            v => v,
+        };
+        out.push((at.0, at.1, "let-value", format!("{}\u{1}{}", path, e.get_ty().to_pretty(80))));
+        if depth >= 4 {
+            return;
+        }
+        let (tag, kids): (char, Vec<&tast::Expr>) = match e {
+            ECall { func, args, .. } if matches!(&**func, EVar { .. }) => ('c', args.iter().collect()),
+            EConstr { args, .. } => ('c', args.iter().collect()),
+            ETuple { items, .. } => ('t', items.iter().collect()),
+            EArray { items, .. } => ('a', items.iter().collect()),
+            EBinary { lhs, rhs, .. } => ('b', vec![&**lhs, &**rhs]),
+            EUnary { expr, .. } => ('u', vec![&**expr]),
+            _ => return,
+        };
+        let n = kids.len();
+        for (i, k) in kids.into_iter().enumerate() {
+            sub_exprs(k, format!("{}/{}{}.{}", path, tag, i, n), depth + 1, at, out);
+        }
+    }
     fn expr(e: &tast::Expr, out: &mut Vec<(u32, u32, &'static str, String)>) {
         use tast::Expr::*;
         match e {
@@ -673,12 +700,8 @@ fn collect_tast(file: &tast::File) -> Vec<(u32, u32, &'static str, String)> {
                 // the initialiser of a `let` with a variable binder: the TAST has no pointer for most
                 // expression kinds, but the binder has one, and the initialiser is its sibling in the CST
                 if let tast::Pat::PVar { astptr: Some(ptr), .. } = p {
-                    let v: &tast::Expr = match &**value {
-                        EToDyn { expr: inner, .. } => inner,
-                        v => v,
-                    };
                     let r = ptr.text_range();
-                    out.push((r.start().into(), r.end().into(), "let-value", v.get_ty().to_pretty(80)));
+                    sub_exprs(value, String::new(), 0, (r.start().into(), r.end().into()), out);
                 }
                 expr(value, out)
             }
@@ -735,7 +758,7 @@ fn collect_tast(file: &tast::File) -> Vec<(u32, u32, &'static str, String)> {
 /// The CST expression a TAST entry of `collect_tast` stands for. `let_value`: `(s, e)` is the range of a
 /// variable binder and the expression is the initialiser of its `let`; otherwise `(s, e)` is the range
 /// of the expression itself. Parentheses are looked through (they have no node of their own after lowering).
-fn expr_node_for(root: &MySyntaxNode, s: u32, e: u32, let_value: bool) -> Option<MySyntaxNode> {
+fn expr_node_for(root: &MySyntaxNode, s: u32, e: u32, let_value: bool, path: &str) -> Option<MySyntaxNode> {
     use cst::cst::CstNode;
     use parser::syntax::MySyntaxKind;
     let len: u32 = root.text_range().end().into();
@@ -754,8 +777,53 @@ fn expr_node_for(root: &MySyntaxNode, s: u32, e: u32, let_value: bool) -> Option
     } else {
         start.ancestors().find(|n| n.text_range() == range && cst::nodes::Expr::can_cast(n.kind()))?
     };
-    while node.kind() == MySyntaxKind::EXPR_PAREN {
-        node = node.children().find(|c| cst::nodes::Expr::can_cast(c.kind()))?;
+    let unparen = |mut node: MySyntaxNode| -> Option<MySyntaxNode> {
+        while node.kind() == MySyntaxKind::EXPR_PAREN {
+            node = node.children().find(|c| cst::nodes::Expr::can_cast(c.kind()))?;
+        }
+        Some(node)
+    };
+    node = unparen(node)?;
+    // every step checks the kind of the CST node and the number of its children: a form the two trees
+    // do not share one to one ends the descent
+    for step in path.split('/').filter(|x| !x.is_empty()) {
+        let tag = step.chars().next()?;
+        let (i, n) = step[1..].split_once('.')?;
+        let (i, n): (usize, usize) = (i.parse().ok()?, n.parse().ok()?);
+        let kids: Vec<MySyntaxNode> = match (tag, node.kind()) {
+            ('c', MySyntaxKind::EXPR_CALL) => {
+                let mut ch = node.children();
+                let callee = ch.next()?;
+                let list = ch.next().filter(|c| c.kind() == MySyntaxKind::ARG_LIST)?;
+                if callee.kind() != MySyntaxKind::EXPR_IDENT || ch.next().is_some() {
+                    return None;
+                }
+                let mut v = Vec::new();
+                for a in list.children() {
+                    if a.kind() != MySyntaxKind::ARG || a.children().count() != 1 {
+                        return None;
+                    }
+                    v.push(a.children().next()?);
+                }
+                v
+            }
+            ('t', MySyntaxKind::EXPR_TUPLE) | ('a', MySyntaxKind::EXPR_ARRAY_LITERAL) | ('u', MySyntaxKind::EXPR_PREFIX) => node.children().collect(),
+            ('b', MySyntaxKind::EXPR_BINARY) => {
+                if node.children_with_tokens().filter_map(|x| x.into_token()).any(|t| t.kind() == MySyntaxKind::Dot) {
+                    return None;
+                }
+                node.children().collect()
+            }
+            _ => return None,
+        };
+        if kids.len() != n {
+            return None;
+        }
+        let k = kids.into_iter().nth(i)?;
+        if !cst::nodes::Expr::can_cast(k.kind()) {
+            return None;
+        }
+        node = unparen(k)?;
     }
     Some(node)
 }
@@ -1065,7 +1133,12 @@ fn run_text(th: usize, ti: usize, t: &Text, dir: &Path, watch: &Watch, sh: &Shar
             let hroot = MySyntaxNode::new_root(parser::parse(&path, src).green_node);
             for (s, e, kind, ty) in collect_tast(&comp.tast) {
                 if kind == "let-value" || kind == "expr-node" {
-                    if let Some(node) = expr_node_for(&hroot, s, e, kind == "let-value") {
+                    let (path, ty) = match ty.split_once('\u{1}') {
+                        Some((p, t)) => (p.to_string(), t.to_string()),
+                        None => (String::new(), ty),
+                    };
+                    if let Some(node) = expr_node_for(&hroot, s, e, kind == "let-value", &path) {
+                        let kind = if path.is_empty() { kind } else { "let-sub" };
                         for (off, text) in head_tokens(&node) {
                             if seen_head.insert(off) {
                                 heads.push((off, format!("{}:{:?}", kind, node.kind()), ty.clone(), text));
